@@ -55,6 +55,17 @@ def runHistory {A : Arith} (h : SM) : DecSt A → List (List UInt64 × Nat) → 
     | none => ["panic"]
     | some (v, st') => showVerdict v :: runHistory h st' rest
 
+/-- the matrix dumped by the harness (the library's own adjacency lists) must be a set of positions: row and column lists
+mutually consistent, in range and without duplicates (`SM.Inv`, the hypothesis of the decoder theorems; cf. `ar_inv_of_invB`) -/
+def smWellFormed (h : SM) : Bool :=
+  (List.range h.nrows).all (fun r => (h.row r).all (fun c => decide (c < h.ncols) && (h.col c).contains r)) &&
+  (List.range h.ncols).all (fun c => (h.col c).all (fun r => decide (r < h.nrows) && (h.row r).contains c)) &&
+  (List.range h.nrows).all (fun r => decide (h.row r).Nodup) &&
+  (List.range h.ncols).all (fun c => decide (h.col c).Nodup)
+
+def illFormed (h : SM) : Option String :=
+  if smWellFormed h then none else some "the-parity-check-matrix-object-is-not-a-set-of-positions (adjacency lists inconsistent or with duplicates)"
+
 /-- C01 predicate on one implementation result.  C01 constrains the *results* of `decode`; a call that panics
 returns no result, so the predicate has nothing to judge (`none`).  For the 20 names with an exact model the model
 is total on these inputs, so a panic of the implementation is still reported — as a MISMATCH with the model. -/
@@ -96,7 +107,7 @@ def handleC01 (inp out : List String) : String :=
   | name :: r :: c :: calls =>
     match parseSM r c, calls.mapM parseCall, out.mapM parseVerdict with
     | some h, some calls, some res =>
-      let prop := firstSome ((calls.zip res).map (fun p => c01Pred h p.1.1 p.1.2 p.2))
+      let prop := firstSome (illFormed h :: (calls.zip res).map (fun p => c01Pred h p.1.1 p.1.2 p.2))
       match modelFor name h calls with
       | some m => verdict m out prop
       | none => verdict out out prop       -- float implementation: predicate only
@@ -111,7 +122,7 @@ def handleC10 (inp out : List String) : String :=
     | some h, some calls =>
       -- a call on which the fresh decoder panics too (f32 overflow to NaN inside `partial_cmp().unwrap()`) is a
       -- call on which reused and fresh agree: C10 compares the two, it does not promise a result
-      let prop := if reused ≠ fresh then some "reused-decoder-differs-from-fresh-decoder" else none
+      let prop := if reused ≠ fresh then some "reused-decoder-differs-from-fresh-decoder" else illFormed h
       match modelFor name h calls with
       | some m => verdict (m ++ ["|"] ++ m) out prop
       | none => verdict out out prop
@@ -278,7 +289,7 @@ def handleC03 (inp out : List String) : String :=
         if ar == "aff" then runC03 ArithTest.affine (fun (x : Int) => toString x) showMsgs showMsgs showIntList s h llrs n
         else runC03 ArithTest.intMinSum (fun (x : Int) => toString x) showMsgs showMsgs showIntList s h llrs n
       -- property: implementation result AND trace equal the textbook schedule's
-      let prop := if out ≠ ref then some "differs-from-textbook-schedule" else
+      let prop := if (illFormed h).isSome then illFormed h else if out ≠ ref then some "differs-from-textbook-schedule" else
                   if buf ≠ ref.take 1 then some "buffer-model-differs-from-textbook (model inconsistency)" else none
       verdict ref out prop
     | _, _ => "BADLINE c03 parse"
